@@ -53,6 +53,19 @@ def rule_R1_evaluated(ctx, prj) -> bool:
                      f"{[m[5] for m in badr[0][1][5]] if badr else '?'} (written: {badr[0][0][4] if badr else '?'})")
         else:
             ctx.ok("R1", rfi.site(), f"read path: {len(b)} entries with the written line totals = sum of their measurements")
+        # the third construction site: an entry taken over from the cached report of an earlier scan
+        from ..cache_eval import cached_scan
+        out, _, _, _ = cached_scan(prj)
+        sf = prj.func(f"{SC}:_scan_file")
+        badc = {k: v for k, v in out.items() if v[0] != sum(v[1])}
+        if not any(v[1] == [55, 44] for v in out.values()):
+            raise Unknown("the scan with a cached report reuses no entry")
+        if badc:
+            k, v = next(iter(badc.items()))
+            ctx.viol("R1", "_scan_file/SourceFileEntry", sf.site(), f"after a scan with a cached report the entry of {k} has line total {v[0]} for "
+                                                                      f"measurements of lengths {v[1]} (sum {sum(v[1])}): the total is not the sum of the lengths stored with it")
+        else:
+            ctx.ok("R1", sf.site(), f"scan with a cached report: {len(out)} entries (reused and re-analysed), each with loc = sum of its measurements")
     except (Unknown, PyRaise) as e:
         ctx.info(f"entries not evaluable ({type(e).__name__}: {e}); structural pairing rule decides")
         ctx.violations[:] = [v for v in ctx.violations if v.rule != "R1"]
